@@ -124,10 +124,25 @@ def run_case(ctx, rng, pandas, s, S, det, tensors, nonvan, e, relrows, outcome, 
     ign_rank, ign_res = bool(rng.random() < 0.35), bool(rng.random() < 0.35)
     if not det and gross:
         return
-    env = str(rng.choice(["plain", "upper", "ints", "extras", "cwd_dir", "relfile", "relfile_dot"]))
+    env = str(rng.choice(["plain", "upper", "ints", "mixed_ints", "extras", "cwd_dir", "relfile", "relfile_dot"]))
+    first_int = None
+    if env == "mixed_ints":
+        # the FIRST modulus column is integer-typed, the others are floats with fractions: every row is rescaled so that one supplied
+        # component becomes a whole number (the relations are linear and homogeneous, so each row stays an invariant tensor)
+        cands = [n for n in sorted(S) if all(r[n - 1] != 0 for r in rows)]
+        if cands:
+            first_int = int(rng.choice(cands))
+            ms = [Fraction(int(rng.integers(3, 40)), 1) for _ in rows]
+            rows = [[x * m / r[first_int - 1] for x in r] for r, m in zip(rows, ms)]
+        else:
+            env = "plain"
     # (a FILE named like the system in the working directory is not generated: the statement makes a path to a relations
     #  file take precedence, so such a file would legitimately be read as the relations)
     df = build_table(pandas, rng, S, rows, extra_bad, upper=(env == "upper"), ints=(env == "ints"), extras=(env == "extras"))
+    if first_int is not None:
+        c0 = SYMS[first_int - 1]
+        df[c0] = df[c0].round().astype("int64")
+        df = df[[c0] + [c for c in df.columns if c != c0]]
     want = outcome[(det, gross, ign_rank, ign_res)]
     case = {"system": s, "supplied": [SYMS[n - 1] for n in sorted(S)], "det": det, "gross": gross, "bad": extra_bad,
             "ignore_rank": ign_rank, "ignore_residuals": ign_res, "env": env, "rows": nrows}
